@@ -4,7 +4,7 @@
    parsers are covered by fuzzing on the implementation (with the model compared on outcome class). *)
 From Coq Require Import List Bool NArith String.
 From PC Require Import Base.Result Model.Pep440 Spec.Pep440Spec Model.VConstraint
-     Proofs.Pep440Parse Proofs.UnionTotal Proofs.ParseTotal Proofs.UnionHull Proofs.UnionTotalGood Proofs.InterTotal Proofs.CommaDefined.
+     Proofs.Pep440Parse Proofs.UnionTotal Proofs.ParseTotal Proofs.UnionHull Proofs.UnionTotalGood Proofs.InterTotal Proofs.CommaDefined Proofs.DiffUnion Proofs.Closure Proofs.ExprTotal.
 Import ListNotations.
 
 (* versions: accepted -> a well-formed version (which always prints); otherwise InvalidVersionError *)
@@ -35,3 +35,9 @@ Proof. exact or_groups_defined. Qed.
 Print Assumptions C19_or_groups_defined.
 Example C19_comma_set_defined_example : exists cs, mapR (parse_single_pep false) [">=1.0"; "!=1.5"; "<2.0"]%string = Ok cs /\ forallb goodc cs = true.
 Proof. eexists. split; vm_compute; reflexivity. Qed.
+
+(* ... for any history: every expression built from union / intersection / difference over constraints with good, ordered, separated members
+   and mutually regular bounds evaluates (no AssertionError, RecursionError or ValueError from the algebra) *)
+Theorem C19_every_expression_defined : forall B, mutual B -> forall e, leaves_in' B e -> exists c, ceval e = Ok c.
+Proof. intros B MU e L. destruct (expr_total B MU e L) as (c & H & _). exists c. exact H. Qed.
+Print Assumptions C19_every_expression_defined.
